@@ -309,6 +309,14 @@ fn sj_json(s: &str) -> Value {
         None => json!([-1]),
     }
 }
+/// text read by read_c_string: its bytes when plain ASCII, else [-1] (the decoder is lossy on arbitrary bytes)
+fn cstr_json(s: &str) -> Value {
+    if s.is_ascii() {
+        bytes_to_json(s.as_bytes())
+    } else {
+        json!([-1])
+    }
+}
 fn digits_be(x: u32, w: usize) -> Value {
     let b = x.to_be_bytes();
     bytes_to_json(&b[4 - w..])
@@ -379,6 +387,12 @@ fn sm_apply(a: &mut BinArchive, ev: &Value) -> (Value, i64) {
         "read_string" => (opt_of(a.read_string(addr).map(|o| o.map(|s| sj_json(&s)))), 0),
         "read_pointer" => (opt_of(a.read_pointer(addr).map(|o| o.map(|p| json!([from_usize(p)])))), 0),
         "read_labels" => (opt_of(a.read_labels(addr).map(|o| o.map(|l| Value::Array(l.iter().map(|x| sj_json(x)).collect())))), 0),
+        "read_c_string" => (opt_of(a.read_c_string(addr).map(|o| o.map(|s| cstr_json(&s)))), 0),
+        "s_read_c_string" => {
+            let mut rd = BinArchiveReader::new(a, addr);
+            let r = opt_of(rd.read_c_string().map(|o| o.map(|s| cstr_json(&s))));
+            (r, from_usize(rd.tell()))
+        }
         "write_string" => (unit_of(a.write_string(addr, Some(&s_of(bs)))), 0),
         "delete_string" => (unit_of(a.delete_string(addr)), 0),
         "write_pointer" => (unit_of(a.write_pointer(addr, Some(t))), 0),
@@ -692,7 +706,8 @@ fn random_event(rng: &mut Rng, p: &Value, focus: &str) -> Value {
                 let k = match rng.below(6) { 0 => 0, 1 => size as usize + 1, _ => rng.below(size as usize + 1) };
                 ev(&pre("write_bytes"), baddr(rng), 0, false, bytes_to_json(&rng.bytes(k)), 0, "")
             }
-            64..=69 => ev(&pre("read_string"), addr(rng), 0, false, json!([]), 0, ""),
+            64..=66 => ev(&pre("read_string"), addr(rng), 0, false, json!([]), 0, ""),
+            67..=69 => ev(&pre("read_c_string"), addr(rng), 0, false, json!([]), 0, ""),
             70..=75 => ev(&pre("read_pointer"), addr(rng), 0, false, json!([]), 0, ""),
             76..=81 => ev(&pre("read_labels"), addr(rng), 0, false, json!([]), 0, ""),
             82..=85 => match free_cell(rng, p) {
